@@ -338,7 +338,7 @@ def r13(F, lsp=False, rid="R13"):
         if c is None:
             return None
         if c not in flat_ctx:
-            fl = flatten.flat(F, c)
+            fl = flatten.flat(F, c, keep=("OpsMap::",))       # the translator idioms look for the OpsMap calls
             flat_ctx[c] = (fl, Origins(fl), Linear(fl))
         fl, o2, lin2 = flat_ctx[c]
         offs = flatten.splice_offsets(fl, n)
